@@ -12,13 +12,33 @@ def WfMeta (m : Meta) : Prop :=
 
 instance (m : Meta) : Decidable (WfMeta m) := by unfold WfMeta; infer_instance
 
+/-- like `WfMeta` without any condition on the shape of the range lists -/
+def BdMeta (m : Meta) : Prop :=
+  m.version = SET_CLUSTER_API_VERSION ∧ m.epoch ≤ u64Max ∧ m.flags.compress = false ∧
+    validClusterName m.cluster = true ∧ BdMap m.local ∧ BdMap m.peer ∧ WfCfg m.config
+
+instance (m : Meta) : Decidable (BdMeta m) := by unfold BdMeta; infer_instance
+
+/-- the value both wire forms denote: every range list compacted -/
+def Meta.compacted (m : Meta) : Meta := { m with «local» := m.local.compacted, peer := m.peer.compacted }
+
+theorem WfMeta.bd {m : Meta} (h : WfMeta m) : BdMeta m :=
+  ⟨h.1, h.2.1, h.2.2.1, h.2.2.2.1, h.2.2.2.2.1.bd, h.2.2.2.2.2.1.bd, h.2.2.2.2.2.2⟩
+
+theorem WfMeta.compacted {m : Meta} (h : WfMeta m) : m.compacted = m := by
+  cases m
+  simp only [Meta.compacted]
+  congr
+  · exact h.2.2.2.2.1.compacted
+  · exact h.2.2.2.2.2.1.compacted
+
 theorem peer_word : (upperA PEER_PREFIX == PEER_PREFIX) = true := by decide
 theorem config_word_ne_peer : (upperA CONFIG_PREFIX == PEER_PREFIX) = false := by decide
 theorem config_word : (upperA CONFIG_PREFIX == CONFIG_PREFIX) = true := by decide
 theorem peer_section : isSectionWord PEER_PREFIX = true := by decide
 theorem config_section : isSectionWord CONFIG_PREFIX = true := by decide
 
-theorem toArgs_isEmpty (nm : NodeMap) (h : WfMap nm) : (NodeMap.toArgs nm).isEmpty = nm.isEmpty := by
+theorem toArgs_isEmpty (nm : NodeMap) (h : BdMap nm) : (NodeMap.toArgs nm).isEmpty = nm.isEmpty := by
   cases nm with
   | nil => rfl
   | cons p rest =>
@@ -52,8 +72,8 @@ theorem parseSections_config (f : Nat) (loc peer : NodeMap) (c0 : Config) (cfg :
   rfl
 
 theorem parseSections_rt (f : Nat) (loc : NodeMap) (peer : NodeMap) (cfg : Config) (order : List CfgField)
-    (hp : WfMap peer) (hc : WfCfg cfg) (ho : OrderOk order) :
-    parseSections (f + 3) loc [] Config.default true (sectionArgs order peer cfg) = .ok (peer, cfg, true) := by
+    (hp : BdMap peer) (hc : WfCfg cfg) (ho : OrderOk order) :
+    parseSections (f + 3) loc [] Config.default true (sectionArgs order peer cfg) = .ok (peer.compacted, cfg, true) := by
   unfold sectionArgs
   rw [cfgArgs_nonempty cfg order ho, toArgs_isEmpty peer hp]
   cases peer with
@@ -64,8 +84,8 @@ theorem parseSections_rt (f : Nat) (loc : NodeMap) (peer : NodeMap) (cfg : Confi
     simp only [List.isEmpty_cons, Bool.false_eq_true, if_false, List.cons_append]
     rw [parseSections]
     simp only [peer_word, if_true]
-    rw [NodeMap.parse_rt (p :: ps) _ hp (Or.inr ⟨_, _, rfl, config_section⟩)]
-    exact parseSections_config f loc (p :: ps) _ cfg order hc ho
+    rw [NodeMap.parse_rt_bd (p :: ps) _ hp (Or.inr ⟨_, _, rfl, config_section⟩)]
+    exact parseSections_config f loc _ _ cfg order hc ho
 
 theorem sectionArgs_stop (order : List CfgField) (peer : NodeMap) (cfg : Config) : Stop (sectionArgs order peer cfg) := by
   unfold sectionArgs
@@ -92,22 +112,28 @@ theorem toArgs_split (order : List CfgField) (m : Meta) :
       (NodeMap.toArgs m.local ++ sectionArgs order m.peer m.config) := by
   simp [Meta.toArgs, sectionArgs]
 
-/-- **cluster meta round trip** (plain encoding), for any decoder of the compressed form -/
-theorem parseWith_toArgs (dec : Str → Option MetaData) (order : List CfgField) (m : Meta)
-    (h : WfMeta m) (ho : OrderOk order) : parseWith dec (m.toArgs order) = .ok (m, true) := by
+/-- **plain encoding, any range lists**: the argument vector of a meta decodes to that meta with
+every range list compacted, for any decoder of the compressed form -/
+theorem parseWith_toArgs_bd (dec : Str → Option MetaData) (order : List CfgField) (m : Meta)
+    (h : BdMeta m) (ho : OrderOk order) : parseWith dec (m.toArgs order) = .ok (m.compacted, true) := by
   obtain ⟨hv, he, hf, hn, hl, hp, hc⟩ := h
   rw [toArgs_split]
   unfold parseWith
   simp only [hv, bne_self_eq_false, Bool.false_eq_true, if_false, parseUnsigned_decimal _ he, flags_rt, hf, hn,
     Bool.not_true]
-  rw [NodeMap.parse_rt m.local _ hl (sectionArgs_stop order m.peer m.config)]
+  rw [NodeMap.parse_rt_bd m.local _ hl (sectionArgs_stop order m.peer m.config)]
   simp only
   have hlen := sectionArgs_length order m.peer m.config ho
   have : (sectionArgs order m.peer m.config).length + 1 = ((sectionArgs order m.peer m.config).length - 2) + 3 := by omega
-  rw [this, parseSections_rt _ m.local m.peer m.config order hp hc ho]
+  rw [this, parseSections_rt _ _ m.peer m.config order hp hc ho]
   simp only
   cases m
-  simp_all
+  simp_all [Meta.compacted]
+
+/-- **cluster meta round trip** (plain encoding), for any decoder of the compressed form -/
+theorem parseWith_toArgs (dec : Str → Option MetaData) (order : List CfgField) (m : Meta)
+    (h : WfMeta m) (ho : OrderOk order) : parseWith dec (m.toArgs order) = .ok (m, true) := by
+  rw [parseWith_toArgs_bd dec order m h.bd ho, h.compacted]
 
 /-! ## whatever is accepted is well-formed -/
 
